@@ -125,6 +125,10 @@ def run(repo, rep, tier):
     opconf(repo, rep)
     fields_ok = field_grid(repo, rep, tier)
     funnel(repo, rep, fields_ok)
+    # "month given as number, short name and long name" is one of the input forms that must agree: the validation reached by every
+    # form must refuse / accept the same days whatever the spelling (rule shared with C01)
+    from .c01 import month_forms
+    month_forms(repo, rep)
     # field extraction (get_date) is the inverse of the date -> JDE conversion: constants must pair up
     from .c01 import d34
     d34(repo, rep)
